@@ -1,6 +1,364 @@
 package main
 
+import (
+	"fmt"
+	"go/types"
+	"sort"
+	"strings"
+
+	"golang.org/x/tools/go/ssa"
+)
+
+// sweepPkgs are the library packages whose every function is swept (commands and tests are not).
+var sweepPkgs = []string{"", "/decode", "/encode", "/render", "/generate", "/raster", "/raster/vec", "/mdicons"}
+
+func (eng *Engine) sweepFuncs() []*ssa.Function {
+	var out []*ssa.Function
+	for _, f := range eng.allFuncs {
+		if f.Pkg == nil && f.Parent() == nil {
+			continue
+		}
+		pkg := f.Pkg
+		if pkg == nil && f.Parent() != nil {
+			pkg = f.Parent().Pkg
+		}
+		if pkg == nil || len(f.Blocks) == 0 {
+			continue
+		}
+		rel := strings.TrimPrefix(pkg.Pkg.Path(), eng.modPath)
+		ok := false
+		for _, p := range sweepPkgs {
+			if rel == p {
+				ok = true
+			}
+		}
+		if !ok || f.Synthetic != "" && !strings.Contains(f.Synthetic, "package initializer") {
+			continue
+		}
+		out = append(out, f)
+	}
+	sort.Slice(out, func(i, j int) bool { return out[i].String() < out[j].String() })
+	return out
+}
+
+func structural(name, kind, fn, clause string, holds bool, why string, labels ...string) *Obl {
+	o := &Obl{Name: name, Kind: kind, Func: fn, Clause: clause, Labels: labels, Solver: "structural (go/ssa scan)"}
+	if holds {
+		o.Result = "unsat"
+	} else {
+		o.Result = "sat"
+		o.Output = why
+	}
+	return o
+}
+
 // runSweeps runs the structural (non-solver) obligations registered for a property.
 func (eng *Engine) runSweeps(prop string, info PropInfo) ([]*Obl, []string) {
-	return nil, nil
+	var out []*Obl
+	var assum []string
+	for _, sw := range info.Sweeps {
+		switch sw {
+		case "frames":
+			out = append(out, eng.sweepFrames(prop)...)
+			assum = append(assum, "C18: two operations whose write frames are disjoint and whose shared data is only read have no data race in any schedule (Go memory model, DRF): stated, not machine-checked",
+				"C18: fmt, bytes, math, image, image/color and golang.org/x/image/vector keep no shared mutable state")
+		case "determinism":
+			out = append(out, eng.sweepDeterminism(prop)...)
+		case "readframe":
+			out = append(out, eng.sweepReadFrame(prop)...)
+		}
+	}
+	return out, assum
+}
+
+func short(f *ssa.Function) string {
+	s := f.String()
+	return strings.ReplaceAll(s, "github.com/reactivego/", "")
+}
+
+// sweepFrames: no store to package-level variables outside initialisers, no write through the decode API's
+// byte slices or caller palettes, no package-level storage leaking into objects or results.
+func (eng *Engine) sweepFrames(prop string) []*Obl {
+	var out []*Obl
+	for _, f := range eng.sweepFuncs() {
+		isInit := f.Name() == "init" && f.Synthetic != ""
+		// (a) direct stores to globals in this function body
+		var bad []string
+		for _, b := range f.Blocks {
+			for _, ins := range b.Instrs {
+				switch x := ins.(type) {
+				case *ssa.Store:
+					if r := rootOf(x.Addr); r.kind == "global" && !isInit {
+						bad = append(bad, fmt.Sprintf("%s: store to package-level variable %s", eng.fset.Position(x.Pos()), r.glob.Name()))
+					}
+				case *ssa.MapUpdate:
+					if r := rootOf(x.Map); r.kind == "global" && !isInit {
+						bad = append(bad, fmt.Sprintf("%s: update of package-level map", eng.fset.Position(x.Pos())))
+					}
+				case ssa.CallInstruction:
+					c := x.Common()
+					if bi, ok := c.Value.(*ssa.Builtin); ok && (bi.Name() == "append" || bi.Name() == "copy") && !isInit {
+						if src := globalSliceSource(c.Args[0]); src != nil {
+							bad = append(bad, fmt.Sprintf("%s: %s into storage of package-level variable %s", eng.fset.Position(x.Pos()), bi.Name(), src.Name()))
+						}
+					}
+				}
+			}
+		}
+		out = append(out, structural(fmt.Sprintf("sweep/%s/no-global-store", short(f)), "sweep", f.String(),
+			"no store to a package-level variable outside package initialisation", len(bad) == 0, strings.Join(bad, "; "), prop+".no-global-store"))
+		// (b) package-level storage does not leak: a pointer/slice into a global may only be read
+		bad = nil
+		if !isInit {
+			for _, b := range f.Blocks {
+				for _, ins := range b.Instrs {
+					v, ok := ins.(ssa.Value)
+					if !ok {
+						continue
+					}
+					g := globalSliceSource(v)
+					if g == nil {
+						continue
+					}
+					if _, isSlice := v.Type().Underlying().(*types.Slice); !isSlice {
+						if _, isPtr := v.Type().Underlying().(*types.Pointer); !isPtr {
+							continue
+						}
+					}
+					for _, r := range *v.Referrers() {
+						switch u := r.(type) {
+						case *ssa.Store:
+							if u.Val == v {
+								bad = append(bad, fmt.Sprintf("%s: storage of package-level variable %s stored into an object", eng.fset.Position(u.Pos()), g.Name()))
+							}
+						case *ssa.Return:
+							bad = append(bad, fmt.Sprintf("%s: storage of package-level variable %s returned", eng.fset.Position(u.Pos()), g.Name()))
+						case *ssa.MakeInterface, *ssa.MakeClosure:
+							bad = append(bad, fmt.Sprintf("%s: storage of package-level variable %s escapes", eng.fset.Position(r.Pos()), g.Name()))
+						case ssa.CallInstruction:
+							callee := u.Common().StaticCallee()
+							if bi, ok := u.Common().Value.(*ssa.Builtin); ok && (bi.Name() == "len" || bi.Name() == "cap") {
+								continue
+							}
+							if bi, ok := u.Common().Value.(*ssa.Builtin); ok && bi.Name() == "append" && len(u.Common().Args) > 1 && u.Common().Args[1] == v && u.Common().Args[0] != v {
+								continue // appended FROM the global: read only
+							}
+							if callee != nil && readOnlyExternal[callee.String()] {
+								continue
+							}
+							if callee != nil && eng.inModule(callee) {
+								// passed to a module function: it must not write through that parameter
+								ce := eng.effectsOf(callee)
+								wrote := false
+								for i, a := range u.Common().Args {
+									if a != v {
+										continue
+									}
+									for _, cr := range ce.Roots {
+										if cr.kind == "param" && cr.index == i {
+											wrote = true
+										}
+									}
+								}
+								if !wrote {
+									continue
+								}
+							}
+							bad = append(bad, fmt.Sprintf("%s: storage of package-level variable %s passed to %v", eng.fset.Position(u.Pos()), g.Name(), u.Common().Value))
+						}
+					}
+				}
+			}
+		}
+		out = append(out, structural(fmt.Sprintf("sweep/%s/no-global-alias", short(f)), "sweep", f.String(),
+			"storage of package-level variables is only read: no pointer or slice into it is stored, returned, or handed to code that may write it", len(bad) == 0, strings.Join(bad, "; "), prop+".no-global-alias"))
+		// (c) input frames: functions of ivg and decode never write byte memory; nothing writes through a []byte / palette parameter
+		bad = nil
+		rel := ""
+		if f.Pkg != nil {
+			rel = strings.TrimPrefix(f.Pkg.Pkg.Path(), eng.modPath)
+		} else if f.Parent() != nil && f.Parent().Pkg != nil {
+			rel = strings.TrimPrefix(f.Parent().Pkg.Pkg.Path(), eng.modPath)
+		}
+		e := eng.effectsOf(f)
+		if rel == "" || rel == "/decode" {
+			for k, t := range e.Mems {
+				if b, ok := t.Underlying().(*types.Basic); ok && b.Kind() == types.Uint8 {
+					bad = append(bad, "writes []byte memory ("+k+")")
+				}
+			}
+		}
+		for _, r := range e.Roots {
+			if r.kind == "param" && len(r.path) > 0 && r.path[0] == -3 && r.elem != nil {
+				if b, ok := r.elem.Underlying().(*types.Basic); ok && b.Kind() == types.Uint8 {
+					bad = append(bad, fmt.Sprintf("writes elements of its []byte parameter #%d", r.index))
+				}
+			}
+			if r.kind == "param" && r.index < len(f.Params) {
+				// pointer-to-palette parameters ([64]color.RGBA) must not be written (Color.Resolve)
+				if pt, ok := f.Params[r.index].Type().Underlying().(*types.Pointer); ok {
+					if arr, ok := pt.Elem().Underlying().(*types.Array); ok && arr.Len() == 64 && strings.HasSuffix(arr.Elem().String(), "color.RGBA") {
+						bad = append(bad, fmt.Sprintf("writes through its palette/register pointer parameter %s", f.Params[r.index].Name()))
+					}
+				}
+			}
+		}
+		if len(e.Unknown) > 0 && (rel == "" || rel == "/decode") {
+			bad = append(bad, "write effects not fully resolved: "+strings.Join(uniq(e.Unknown), ", "))
+		}
+		out = append(out, structural(fmt.Sprintf("sweep/%s/input-frame", short(f)), "sweep", f.String(),
+			"no write into a []byte parameter, into the decoder's input memory or through a palette pointer", len(bad) == 0, strings.Join(bad, "; "), prop+".input-frame"))
+	}
+	return out
+}
+
+var readOnlyExternal = map[string]bool{"bytes.HasPrefix": true, "bytes.Equal": true, "bytes.Compare": true}
+
+func uniq(xs []string) []string {
+	seen := map[string]bool{}
+	var out []string
+	for _, x := range xs {
+		if !seen[x] {
+			seen[x] = true
+			out = append(out, x)
+		}
+	}
+	return out
+}
+
+// globalSliceSource: v is (derived by slicing / conversion from) the value or address of a package-level variable
+// that has storage worth protecting (slice, array, pointer); returns that variable.
+func globalSliceSource(v ssa.Value) *ssa.Global {
+	switch x := v.(type) {
+	case *ssa.Global:
+		return x
+	case *ssa.UnOp:
+		if x.Op.String() == "*" {
+			if g, ok := x.X.(*ssa.Global); ok {
+				switch g.Type().(*types.Pointer).Elem().Underlying().(type) {
+				case *types.Slice, *types.Pointer, *types.Map:
+					return g
+				}
+			}
+		}
+	case *ssa.Slice:
+		return globalSliceSource(x.X)
+	case *ssa.ChangeType:
+		return globalSliceSource(x.X)
+	case *ssa.FieldAddr:
+		return globalSliceSource(x.X)
+	case *ssa.IndexAddr:
+		return globalSliceSource(x.X)
+	}
+	return nil
+}
+
+// sweepDeterminism: no map iteration, select, goroutine, or call into time / math/rand / os / runtime.
+func (eng *Engine) sweepDeterminism(prop string) []*Obl {
+	var out []*Obl
+	banned := []string{"time.", "math/rand.", "os.", "runtime.", "crypto/rand.", "sync."}
+	for _, f := range eng.sweepFuncs() {
+		rel := ""
+		if f.Pkg != nil {
+			rel = strings.TrimPrefix(f.Pkg.Pkg.Path(), eng.modPath)
+		} else if f.Parent() != nil && f.Parent().Pkg != nil {
+			rel = strings.TrimPrefix(f.Parent().Pkg.Pkg.Path(), eng.modPath)
+		}
+		if rel == "/mdicons" {
+			continue // the converter front end reads files and directories by design; C17 is about Encoder and Renderer
+		}
+		var bad []string
+		for _, b := range f.Blocks {
+			for _, ins := range b.Instrs {
+				switch x := ins.(type) {
+				case *ssa.Range:
+					if _, ok := x.X.Type().Underlying().(*types.Map); ok {
+						bad = append(bad, fmt.Sprintf("%s: iteration over a map", eng.fset.Position(x.Pos())))
+					}
+				case *ssa.Select, *ssa.Go:
+					bad = append(bad, fmt.Sprintf("%s: %T", eng.fset.Position(ins.Pos()), ins))
+				case *ssa.Convert:
+					if _, ok := x.X.Type().Underlying().(*types.Pointer); ok {
+						bad = append(bad, fmt.Sprintf("%s: pointer converted to an integer", eng.fset.Position(x.Pos())))
+					}
+				case ssa.CallInstruction:
+					if callee := x.Common().StaticCallee(); callee != nil && !eng.inModule(callee) {
+						for _, bn := range banned {
+							if strings.HasPrefix(callee.String(), bn) || strings.HasPrefix(callee.String(), "("+bn) || strings.HasPrefix(callee.String(), "(*"+bn) {
+								bad = append(bad, fmt.Sprintf("%s: call of %s", eng.fset.Position(x.Pos()), callee))
+							}
+						}
+					}
+				}
+			}
+		}
+		out = append(out, structural(fmt.Sprintf("sweep/%s/deterministic", short(f)), "sweep", f.String(),
+			"no map iteration, select, goroutine, pointer-to-integer conversion or call into time / rand / os / runtime / sync", len(bad) == 0, strings.Join(bad, "; "), prop+".det"))
+	}
+	return out
+}
+
+// sweepReadFrame (C16): the Renderer looks at its target rectangle only through Dx, Dy and Empty, except for handing it to Draw.
+func (eng *Engine) sweepReadFrame(prop string) []*Obl {
+	var out []*Obl
+	for _, f := range eng.sweepFuncs() {
+		if f.Signature.Recv() == nil || !strings.HasSuffix(f.Signature.Recv().Type().String(), "render.Renderer") {
+			if f.Parent() == nil || f.Parent().Signature.Recv() == nil || !strings.HasSuffix(f.Parent().Signature.Recv().Type().String(), "render.Renderer") {
+				continue
+			}
+		}
+		var bad []string
+		for _, b := range f.Blocks {
+			for _, ins := range b.Instrs {
+				fa, ok := ins.(*ssa.FieldAddr)
+				if !ok {
+					continue
+				}
+				st, ok := fa.X.Type().Underlying().(*types.Pointer).Elem().Underlying().(*types.Struct)
+				if !ok || st.Field(fa.Field).Name() != "r" || !strings.HasSuffix(st.Field(fa.Field).Type().String(), "image.Rectangle") {
+					continue
+				}
+				for _, r := range *fa.Referrers() {
+					switch u := r.(type) {
+					case *ssa.Store:
+						if u.Addr == fa && f.Name() == "SetRasterizer" {
+							continue
+						}
+						bad = append(bad, fmt.Sprintf("%s: z.r written outside SetRasterizer", eng.fset.Position(u.Pos())))
+					case *ssa.UnOp:
+						for _, rr := range *u.Referrers() {
+							ci, isCall := rr.(ssa.CallInstruction)
+							if !isCall {
+								if _, isDbg := rr.(*ssa.DebugRef); isDbg {
+									continue
+								}
+								bad = append(bad, fmt.Sprintf("%s: z.r used by %T", eng.fset.Position(rr.Pos()), rr))
+								continue
+							}
+							c := ci.Common()
+							name := ""
+							if c.IsInvoke() {
+								name = c.Method.Name()
+							} else if sc := c.StaticCallee(); sc != nil {
+								name = sc.String()
+							}
+							switch name {
+							case "(image.Rectangle).Dx", "(image.Rectangle).Dy", "(image.Rectangle).Empty", "Draw":
+							default:
+								bad = append(bad, fmt.Sprintf("%s: z.r passed to %s", eng.fset.Position(rr.Pos()), name))
+							}
+						}
+					case *ssa.FieldAddr:
+						bad = append(bad, fmt.Sprintf("%s: a corner of z.r is read directly", eng.fset.Position(u.Pos())))
+					case *ssa.DebugRef:
+					default:
+						bad = append(bad, fmt.Sprintf("%s: z.r used by %T", eng.fset.Position(r.Pos()), r))
+					}
+				}
+			}
+		}
+		out = append(out, structural(fmt.Sprintf("sweep/%s/rect-size-only", short(f)), "sweep", f.String(),
+			"the target rectangle is read only through Dx, Dy, Empty, or handed to Draw", len(bad) == 0, strings.Join(bad, "; "), prop+".reads"))
+	}
+	return out
 }
